@@ -103,11 +103,13 @@ Fixpoint strides_of (naxes : list nat) : list nat * nat :=
   end.
 Definition prodn (l : list nat) : nat := fold_right Nat.mul 1 l.
 
-(* double norm = ((double)(factorial(q)*factorial(k-1)))/((double)factorial(k+q-1));  if (k % 2 != 0) norm *= -1;
-   parametrised by the factorial in use so that the shipped and the fixed code are both expressible *)
-Definition norm_with (fact : nat -> Z) (k q : nat) : K :=
+(* double norm = ((double)(factorial(q)*factorial(k-1)))/((double)factorial(k+q-1));
+   as shipped, followed by:  if (k % 2 != 0) norm *= -1;   (removed by "fix: convolve no longer negates ...").
+   Parametrised by the factorial in use and by the presence of the sign flip so that the shipped code, the code
+   after the first fix and the current code are all expressible. *)
+Definition norm_with (fact : nat -> Z) (flip : bool) (k q : nat) : K :=
   let nrm := div (ofZ (Z.mul (fact q) (fact (k - 1)))) (ofZ (fact (k + q - 1))) in
-  if Nat.odd k then mul nrm (ofZ (-1)%Z) else nrm.
+  if flip && Nat.odd k then mul nrm (ofZ (-1)%Z) else nrm.
 
 (* trafo[i*naxes_old + j] = norm*convoluted_blossom(&knots[dim][j], k+1, conv_knots, n, rho[i], &rho[i+1], k+q-1) *)
 Definition trafo_entry (nrm : K) (knots kk rho : list K) (k q : nat) (i j : nat) : K :=
@@ -138,8 +140,8 @@ Fixpoint replace_nth {X} (n : nat) (l : list X) (v : X) : list X :=
 
 (* template <typename Alloc> void splinetable<Alloc>::convolve(dim, conv_knots, n_conv_knots)
    [sort] stands for std::sort(rho, rho+n_rho) (an oracle: the theorems assume only that it returns a sorted
-   permutation); [fact] is photospline::factorial. *)
-Definition convolve_with (fact : nat -> Z) (sort : list K -> list K) (t : ctable) (dim : nat) (kk : list K) : ctable :=
+   permutation); [fact] is photospline::factorial, [flip] the presence of the (-1)^k factor. *)
+Definition convolve_with (fact : nat -> Z) (flip : bool) (sort : list K -> list K) (t : ctable) (dim : nat) (kk : list K) : ctable :=
   let d := nth dim (c_dims t) dummy_dim in
   let n := length kk in
   let convorder := c_order d + n - 1 in
@@ -151,7 +153,7 @@ Definition convolve_with (fact : nat -> Z) (sort : list K -> list K) (t : ctable
   let strides := fst (strides_of naxes) in
   let k := c_order d + 1 in
   let q := n - 1 in
-  let nrm := norm_with fact k q in
+  let nrm := norm_with fact flip k q in
   let stride1 := prodn (firstn dim naxes) in
   let stride2 := prodn (skipn (S dim) naxes) in
   let trafo := trafo_matrix nrm (c_knots d) kk rho k q naxes_new naxes_old in
@@ -167,8 +169,9 @@ Definition convolve_with (fact : nat -> Z) (sort : list K -> list K) (t : ctable
                    (combine dims1 strides) in
   mkCTable dims2 coefficients.
 
-Definition convolve := convolve_with factorial.
-Definition convolve_shipped := convolve_with factorial_shipped.
+Definition convolve := convolve_with factorial false.                 (* the current tree *)
+Definition convolve_signflip := convolve_with factorial true.         (* after the factorial fix only *)
+Definition convolve_shipped := convolve_with factorial_shipped true.  (* as shipped *)
 
 (* the std::sort stand-in used when the model is executed: insertion sort on [leb] *)
 Fixpoint insert_sorted (a : K) (l : list K) : list K :=
